@@ -28,6 +28,9 @@ package hash
 //@ lemma inL_witness(hh Events, n int, h Event) by induction(n)
 //@   requires inL(hh, n, h)
 //@   ensures  exists(j, 0, n, hh[j] == h)
+//@ lemma inL_from(hh Events, n int, h Event) by induction(n)
+//@   requires exists(j, 0, n, hh[j] == h)
+//@   ensures  inL(hh, n, h)
 //@ lemma inL_frame(hh Events, n int, i int, v Event) by induction(n)
 //@   requires i >= n
 //@   ensures  forall(h Event, inL(hh[i := v], n, h) == inL(hh, n, h))
@@ -49,6 +52,8 @@ package hash
 //@   loop 1 invariant forall(h Event, has(set, h) == inL(hh, _k, h))
 //@   loop 1 invariant forall(j, 0, _k, inL(hh, _k, hh[j]))
 //@   loop 1 invariant (len(set) == _k) == distinctN(hh, _k)
+//@   loop 1 hint use inL_witness(hh, _k - 1, hh[_k - 1]); use inL_from(hh, _k - 1, hh[_k - 1])
+//@   loop 1 hint assert distinctN(hh, _k) == (distinctN(hh, _k - 1) && !inL(hh, _k - 1, hh[_k - 1]))
 //@
 //@ func (EventsSet).Slice
 //@   ensures  fresh(result) && len(result) == len(hh) && distinctN(result, len(result))
